@@ -39,14 +39,43 @@ def _none():
     return Agg(("adt", OPT, (("int", 64, False, True),)), 0, [])
 
 
-def window_methods(prog):
-    """the methods of Tap that write the window fields (constructor excluded)"""
+def window_methods(prog, with_helpers=False):
+    """entry methods through which the window fields can change: the direct writers that are API methods of Tap
+    (trait methods / public methods taking only self), and for private helpers their callers inside Tap, upwards.
+    with_helpers: also return the private helpers (they are analysed inlined in their callers)."""
     tn = tc.TapeNames(prog)
     cg, fa = cc.scans(prog)
     writers = set()
     for f in ("buffer_offset", "block_bytes_read", "current_block_size"):
         writers |= set(fa.writers(tn.TAP, f))
-    return sorted(p for p in writers if not p.endswith("::from_asset"))
+    writers = set(p for p in writers if not p.endswith("::from_asset"))
+
+    def is_api(p):
+        f = prog.fns.get(p)
+        if f is None or f.body is None or not f.assoc:
+            return False
+        st = f.assoc.get("self_ty")
+        if not (st and st[0] == "adt" and st[1] == tn.TAP):
+            return False
+        return f.body["argc"] == 1 and (f.assoc.get("trait") is not None or f.vis == "pub")
+
+    entries, helpers = set(), set()
+    work = list(writers)
+    seen = set()
+    while work:
+        p = work.pop()
+        if p in seen:
+            continue
+        seen.add(p)
+        if is_api(p):
+            entries.add(p)
+            continue
+        helpers.add(p)
+        for s in cg.callers_of(p):
+            work.append(s.fn.path)
+    if with_helpers:
+        return sorted(entries), sorted(helpers)
+    return sorted(entries)
 
 
 def run(chk, prog, pid_note=""):
@@ -56,11 +85,13 @@ def run(chk, prog, pid_note=""):
     if prog.variant_names(SF) != ["Start", "End", "Current"]:
         chk.undecided_("T-INV/Tap/seekfrom", "SeekFrom variants are %s" % (prog.variant_names(SF),))
         return
-    fields = ("buffer_offset", "block_bytes_read", "current_block_size")
-    writers = set()
-    for f in fields:
-        writers |= set(fa.writers(tn.TAP, f))
-    methods = sorted(p for p in writers if not p.endswith("::from_asset"))
+    methods, helpers = window_methods(prog, with_helpers=True)
+    # a helper reached from outside Tap's own methods would escape the analysis
+    for h in helpers:
+        f = prog.fns.get(h)
+        st = f.assoc.get("self_ty") if f is not None and f.assoc else None
+        chk.check(bool(st) and st[0] == "adt" and st[1] == tn.TAP and f.vis != "pub", "T-INV/Tap/helper/%s" % h.split("::")[-1],
+                  "%s writes the window fields but is neither an API method of Tap nor a private helper of it" % h)
     key0 = "T-INV/Tap"
     _constructor(chk, prog, tn, key0)
     names = [m.split("::")[-1] for m in methods]
